@@ -143,9 +143,9 @@ fn set_opt<R: Reader<Cursor<Vec<u8>>>>(wb: &mut R, o: usize) { match o { 0 => wb
 /// format-specific calls
 fn extra_calls(fmt: &str) -> Vec<&'static str> {
     match fmt {
-        "xlsx" => vec!["range_ref(Data)", "range_ref(nope)", "range_at_ref(2)", "merge_cells(Data)", "merge_cells_at(2)", "load_merged_regions+by_sheet(Data)", "load_tables+table_by_name(T1)", "table_by_name_ref(T1)+names"],
+        "xlsx" => vec!["range_ref(Data)", "range_ref(nope)", "range_at_ref(2)", "merge_cells(Data)", "merge_cells_at(2)", "merge_cells(nope)", "merge_cells_at(7)", "load_merged_regions+by_sheet(Data)", "load_tables+table_by_name(T1)", "table_by_name_ref(T1)+names"],
         "xlsb" => vec!["range_ref(Data)", "range_ref(nope)", "range_at_ref(2)"],
-        "xls" => vec!["merge_cells(Data)", "merge_cells_at(2)"],
+        "xls" => vec!["merge_cells(Data)", "merge_cells_at(2)", "merge_cells(nope)", "merge_cells_at(7)"],
         _ => vec![],
     }
 }
@@ -180,8 +180,10 @@ fn do_call(wb: &mut Wb, c: usize) -> String {
             2 => format!("{:?}", w.worksheet_range_at_ref(2).map(|r| rd(r.map(|r| range_ref_to_data(&r)).map_err(es)))),
             3 => format!("{:?}", w.worksheet_merge_cells(S[0]).map(|r| r.map_err(es))),
             4 => format!("{:?}", w.worksheet_merge_cells_at(2).map(|r| r.map_err(es))),
-            5 => { let l = w.load_merged_regions().map_err(es); format!("{l:?} {:?} {:?}", w.merged_regions_by_sheet(S[0]), w.merged_regions_by_sheet(S[2])) }
-            6 => { let l = w.load_tables().map_err(es); match w.table_by_name("T1") { Ok(t) => format!("{l:?} {} {} {:?} {}", t.name(), t.sheet_name(), t.columns(), range_digest(t.data())), Err(e) => format!("{l:?} Err({})", es(e)) } }
+            5 => format!("{:?}", w.worksheet_merge_cells("nope").map(|r| r.map_err(es))),
+            6 => format!("{:?}", w.worksheet_merge_cells_at(7).map(|r| r.map_err(es))),
+            7 => { let l = w.load_merged_regions().map_err(es); format!("{l:?} {:?} {:?}", w.merged_regions_by_sheet(S[0]), w.merged_regions_by_sheet(S[2])) }
+            8 => { let l = w.load_tables().map_err(es); match w.table_by_name("T1") { Ok(t) => format!("{l:?} {} {} {:?} {}", t.name(), t.sheet_name(), t.columns(), range_digest(t.data())), Err(e) => format!("{l:?} Err({})", es(e)) } }
             _ => { let l = w.load_tables().map_err(es); let names = format!("{:?} {:?}", w.table_names(), w.table_names_in_sheet(S[0])); match w.table_by_name_ref("T1") { Ok(t) => format!("{l:?} {names} {:?} {}", t.columns(), range_digest(&range_ref_to_data(t.data()))), Err(e) => format!("{l:?} {names} Err({})", es(e)) } }
         },
         Wb::Xlsb(w) => match x {
@@ -189,7 +191,7 @@ fn do_call(wb: &mut Wb, c: usize) -> String {
             1 => rd(w.worksheet_range_ref("nope").map(|r| range_ref_to_data(&r)).map_err(es)),
             _ => format!("{:?}", w.worksheet_range_at_ref(2).map(|r| rd(r.map(|r| range_ref_to_data(&r)).map_err(es)))),
         },
-        Wb::Xls(w) => match x { 0 => format!("{:?}", w.worksheet_merge_cells(S[0])), _ => format!("{:?}", w.worksheet_merge_cells_at(2)) },
+        Wb::Xls(w) => match x { 0 => format!("{:?}", w.worksheet_merge_cells(S[0])), 1 => format!("{:?}", w.worksheet_merge_cells_at(2)), 2 => format!("{:?}", w.worksheet_merge_cells("nope")), _ => format!("{:?}", w.worksheet_merge_cells_at(7)) },
         _ => "n/a".into(),
     }
 }
